@@ -23,4 +23,5 @@ let table : (Stdlib.String.t * (z list -> z list)) list = [   (* Stdlib.: the ex
   ("refload", run_refload);
   ("paths", run_paths);
   ("proxy", run_proxy);
+  ("staticdecl", run_staticdecl);
 ]
